@@ -22,7 +22,7 @@ warnings.simplefilter('ignore')
 def _wrap(x, cont):
     """Put array-like content into the requested container form."""
     a = np.array(x, dtype=float)
-    if cont == 'ndarray':
+    if cont in ('ndarray', 'ndarray-edge'):
         return a
     if cont == 'ro-ndarray':
         a.setflags(write=False)
@@ -65,6 +65,8 @@ def entries():
         def mk(cont):
             m = _uni_model(cls)
             x = np.linspace(0.05, 0.95, 7) if meth == 'percent_point' else np.linspace(0.0, 12.0, 9)
+            if cont == 'ndarray-edge':      # values at and beyond the edges of the support / of [0, 1]
+                x = np.array([0.0, 1.0, 0.5, 1e-300, 1 - 1e-16]) if meth == 'percent_point' else np.array([-1e6, 0.0, -0.0, 1e-300, 3.0, 1e6, -1e300, 1e300])
             args = {'X': _wrap(x, cont)}
             return args, lambda a: getattr(m, meth)(a['X'])
         return mk
@@ -72,12 +74,14 @@ def entries():
         for meth in ('probability_density', 'cumulative_distribution', 'percent_point', 'log_probability_density'):
             if cls == 'GaussianKDE' and meth == 'log_probability_density':
                 continue
-            E['%s.%s' % (cls, meth)] = (('ndarray', 'ro-ndarray'), uni_query(cls, meth))
+            E['%s.%s' % (cls, meth)] = (('ndarray', 'ro-ndarray', 'ndarray-edge'), uni_query(cls, meth))
 
     def sel_uni(cont):
         from copulas.univariate import GaussianUnivariate, GammaUnivariate
         from copulas.univariate.selection import select_univariate
-        args = {'X': _wrap(B.uni_data('A'), cont), 'candidates': [GaussianUnivariate, GammaUnivariate]}
+        from copulas.univariate import BetaUnivariate
+        # the Beta candidate cannot be fitted to the 0/1 column 'P': failing candidates must not be dropped from the caller's list
+        args = {'X': _wrap(B.uni_data('P'), cont), 'candidates': [GaussianUnivariate, BetaUnivariate, GammaUnivariate]}
         return args, lambda a: type(select_univariate(a['X'], a['candidates'])).__name__
     E['select_univariate'] = (('ndarray', 'ro-ndarray'), sel_uni)
 
@@ -91,7 +95,11 @@ def entries():
         def mk(cont):
             m = B.by_name(cls).new('c1', 0)
             m.fit(B.bi_data('A'))
-            args = {'X': _wrap(B.BI_X, cont)}
+            X = B.BI_X
+            if cont == 'ndarray-edge':     # rows on and next to the boundary of the unit square
+                e = [0.0, 1e-12, 1e-8, 0.3, 1 - 1e-8, 1 - 1e-12, 1.0]
+                X = np.array([[a_, b_] for a_ in e for b_ in e])
+            args = {'X': _wrap(X, cont)}
             return args, lambda a: getattr(m, meth)(a['X'])
         return mk
 
@@ -99,14 +107,17 @@ def entries():
         def mk(cont):
             m = B.by_name(cls).new('c1', 0)
             m.fit(B.bi_data('A'))
-            args = {'y': _wrap(B.BI_Y, cont), 'V': _wrap(B.BI_V, cont)}
+            y, v = B.BI_Y, B.BI_V
+            if cont == 'ndarray-edge':
+                y, v = np.array([1e-4, 0.5, 1 - 1e-4, 0.5, 0.5]), np.array([0.5, 1e-4, 0.5, 1 - 1e-4, 0.5])
+            args = {'y': _wrap(y, cont), 'V': _wrap(v, cont)}
             return args, lambda a: m.percent_point(a['y'], a['V'])
         return mk
     for cls in ('Clayton', 'Frank', 'Gumbel'):
         E['%s.fit' % cls] = (('ndarray', 'ro-ndarray'), bi_fit(cls))
         for meth in ('probability_density', 'cumulative_distribution', 'partial_derivative'):
-            E['%s.%s' % (cls, meth)] = (('ndarray', 'ro-ndarray'), bi_query(cls, meth))
-        E['%s.percent_point' % cls] = (('ndarray', 'ro-ndarray'), bi_ppf(cls))
+            E['%s.%s' % (cls, meth)] = (('ndarray', 'ro-ndarray', 'ndarray-edge'), bi_query(cls, meth))
+        E['%s.percent_point' % cls] = (('ndarray', 'ro-ndarray', 'ndarray-edge'), bi_ppf(cls))
 
     def sel_cop(cont):
         from copulas.bivariate import select_copula
